@@ -17,6 +17,15 @@ def gen_gather(rng):
     for s in sc["specs"]:
         s["flag"] = None if (s["flag"] and s["flag"][0] == "c") else s["flag"]
     sc["k"] = rng.randint(2, 8)
+    r = rng.random()
+    if r < 0.35:
+        # async-thread pipelines of several STAGES: the awaits really interleave (each await point of one run lets the
+        # others advance), and a run started later can finish while an earlier one still has nodes to submit
+        for s in sc["specs"]:
+            s["res"] = "a"
+    elif r < 0.5:
+        for s in sc["specs"]:
+            s["res"] = rng.choice(["a", "a", "m"])
     # cold setup nodes (roots only: a setup node must not depend on a DAG argument)
     for s in sc["specs"]:
         s["setup"] = (not s["preds"]) and s["flag"] is None and rng.random() < 0.35
